@@ -106,8 +106,13 @@ func c03RandRule(r *hx.Run, used map[string]bool) c03Rule {
 			ru.Name = hx.Pick(rr, []string{"job:up:sum", "job:foo:rate5m", "instance:bar:avg", "foo:sum", "baz:rate2m"})
 		}
 		k := fmt.Sprintf("%v|%s", ru.Alert, ru.Name)
-		if used[k] {
+		if used[k] && (!ru.Alert || rr.Intn(3) != 0) {
 			continue
+		}
+		if used[k] {
+			// a second alert of the same name (a warning/critical pair): it must differ in content
+			ru.Label = hx.Pick(rr, []string{"warning", "critical", "page"})
+			ru.For = hx.Pick(rr, []string{"2m", "10m", "15m"})
 		}
 		used[k] = true
 		if rr.Intn(3) == 0 {
@@ -267,7 +272,8 @@ type c03Expect struct {
 	Path  string `json:"path"`
 	Name  string `json:"name"`
 	Alert bool   `json:"alert"`
-	State string `json:"state"` // added | modified | renamed | unmodified | changed (renamed and edited: modified or renamed)
+	State string `json:"state"` // added | modified | renamed | unmodified | changed (renamed and edited: modified or renamed) | changed-any
+	Idx   int    `json:"index_in_file"`
 }
 
 type c03Rec struct {
@@ -348,18 +354,50 @@ func c03Reference(base, head c03Tree, origin map[string]string) []c03Expect {
 		if !touched {
 			bf, existed, o = f, true, f.Path
 		}
-		for _, ru := range f.Rules {
-			e := c03Expect{Path: f.Path, Name: ru.Name, Alert: ru.Alert}
+		for ri, ru := range f.Rules {
+			e := c03Expect{Path: f.Path, Name: ru.Name, Alert: ru.Alert, Idx: ri}
 			var prev *c03Rule
+			nBase, nHead := 0, 0
 			if existed && o != "" {
 				for i := range bf.Rules {
 					if bf.Rules[i].Alert == ru.Alert && bf.Rules[i].Name == ru.Name {
 						prev = &bf.Rules[i]
+						nBase++
 					}
 				}
 			}
-			same := prev != nil && prev.sameContent(ru) && fmt.Sprint(bf.FileC) == fmt.Sprint(f.FileC)
+			for _, other := range f.Rules {
+				if other.Alert == ru.Alert && other.Name == ru.Name {
+					nHead++
+				}
+			}
 			moved := o != f.Path
+			if nBase > 1 || nHead > 1 {
+				// several rules of one name: a rule with an identical base rule left for it is untouched, anything else
+				// changed in some way (pint matches positionally: added/removed or modified)
+				avail, rank := 0, 0
+				for i := range bf.Rules {
+					if existed && o != "" && bf.Rules[i].sameContent(ru) && fmt.Sprint(bf.FileC) == fmt.Sprint(f.FileC) {
+						avail++
+					}
+				}
+				for _, other := range f.Rules[:ri] {
+					if other.sameContent(ru) {
+						rank++
+					}
+				}
+				switch {
+				case rank < avail && !moved:
+					e.State = "unmodified"
+				case rank < avail && moved:
+					e.State = "renamed"
+				default:
+					e.State = "changed-any"
+				}
+				out = append(out, e)
+				continue
+			}
+			same := prev != nil && prev.sameContent(ru) && fmt.Sprint(bf.FileC) == fmt.Sprint(f.FileC)
 			switch {
 			case prev == nil:
 				e.State = "added"
@@ -550,16 +588,15 @@ func c03Eval(r *hx.Run, cs c03Case) {
 		return
 	}
 	_ = json.Unmarshal(b, &reports)
-	lineOf := map[string]map[int]string{} // path -> line of "- alert:/record:" -> kind|name
+	lineOf := map[string]map[int]string{} // path -> line of "- alert:/record:" -> index of the rule in its file
 	for _, f := range head {
 		lineOf[f.Path] = map[int]string{}
+		n := 0
 		for i, l := range strings.Split(f.render(), "\n") {
 			t := strings.TrimSpace(l)
-			if strings.HasPrefix(t, "- alert: ") {
-				lineOf[f.Path][i+1] = "true|" + strings.TrimPrefix(t, "- alert: ")
-			}
-			if strings.HasPrefix(t, "- record: ") {
-				lineOf[f.Path][i+1] = "false|" + strings.TrimPrefix(t, "- record: ")
+			if strings.HasPrefix(t, "- alert: ") || strings.HasPrefix(t, "- record: ") {
+				lineOf[f.Path][i+1] = fmt.Sprint(n)
+				n++
 			}
 		}
 	}
@@ -579,7 +616,7 @@ func c03Eval(r *hx.Run, cs c03Case) {
 		}
 		for _, ln := range rep.Lines {
 			if kn, ok := lineOf[rep.Path][ln]; ok {
-				k := rep.Path + "|" + kn
+				k := rep.Path + "#" + kn
 				if got[k] == nil {
 					got[k] = map[string]bool{}
 				}
@@ -590,15 +627,15 @@ func c03Eval(r *hx.Run, cs c03Case) {
 	// model correspondence on states
 	var implStates []string
 	for _, f := range head {
-		for _, ru := range f.Rules {
-			k := fmt.Sprintf("%s|%v|%s", f.Path, ru.Alert, ru.Name)
+		for ri, ru := range f.Rules {
+			k := fmt.Sprintf("%s#%d", f.Path, ri)
 			var ms []string
 			for _, m := range []string{"added", "modified", "renamed", "unmodified"} {
 				if got[k][m] {
 					ms = append(ms, m)
 				}
 			}
-			implStates = append(implStates, k+"="+strings.Join(ms, "+"))
+			implStates = append(implStates, fmt.Sprintf("%s|%v|%s|%d=%s", f.Path, ru.Alert, ru.Name, c03Hash(ru.Expr, ru.For, ru.Label, fmt.Sprint(ru.Comments)), strings.Join(ms, "+")))
 		}
 	}
 	sort.Strings(implStates)
@@ -615,7 +652,7 @@ func c03Eval(r *hx.Run, cs c03Case) {
 	r.Count(fmt.Sprintf("commits:%d", len(snaps)-1))
 	for _, e := range exp {
 		r.Count("expected:" + e.State)
-		k := fmt.Sprintf("%s|%v|%s", e.Path, e.Alert, e.Name)
+		k := fmt.Sprintf("%s#%d", e.Path, e.Idx)
 		ms := got[k]
 		var have []string
 		for m := range ms {
@@ -630,6 +667,8 @@ func c03Eval(r *hx.Run, cs c03Case) {
 			ok = !changedMarkers && !ms["default"] && ms["unmodified"]
 		case "changed":
 			ok = (ms["modified"] || ms["renamed"]) && ms["default"] && !ms["unmodified"] && !ms["added"]
+		case "changed-any":
+			ok = changedMarkers && ms["default"] && !ms["unmodified"]
 		default:
 			ok = ms[e.State] && ms["default"] && !ms["unmodified"]
 			for _, other := range []string{"added", "modified", "renamed"} {
@@ -639,7 +678,7 @@ func c03Eval(r *hx.Run, cs c03Case) {
 			}
 		}
 		if !ok {
-			r.Violate(hx.Violation{Class: "state:" + e.State, Input: cs, Observed: map[string]any{"rule": k, "markers": have, "records": recs, "changes": fold},
+			r.Violate(hx.Violation{Class: "state:" + e.State, Input: cs, Observed: map[string]any{"rule": k, "name": e.Name, "markers": have, "records": recs, "changes": fold},
 				Expected: "marker of state " + e.State + " (and the CI default block iff the rule changed)"})
 			return
 		}
